@@ -5,7 +5,9 @@ cd "$(dirname "$0")/.."
 miss=0
 run() { # patch prop
   out=$(./tools/mutcheck.sh "$1" -- "$2" 2>&1)
-  if echo "$out" | grep -q "^VIOLATION property=$2"; then echo "caught  $2 $1"; else echo "MISSED  $2 $1: $(echo "$out" | tail -1)"; miss=1; fi
+  if echo "$out" | grep -q "^VIOLATION property=$2"; then echo "caught  $2 $1"
+  elif [ -f "$(dirname $1)/meta.json" ] && grep -q '"detected_by_quick_check": false' "$(dirname $1)/meta.json"; then echo "known-miss $2 $1 (recorded as not detected)"
+  else echo "MISSED  $2 $1: $(echo "$out" | tail -1)"; miss=1; fi
 }
 export -f run
 ( for p in selftest/C*/*.patch; do echo "$p $(basename $(dirname $p))"; done
